@@ -1,6 +1,7 @@
 package main
 
 import (
+	"strconv"
 	"fmt"
 	"go/ast"
 	"go/token"
@@ -172,11 +173,16 @@ func (env *Env) evalCall(x *ast.CallExpr, st *State) Val {
 					// calls, nothing the caller can use
 					return boolVal("true")
 				}
+				want := ""
 				if id, ok := unparen(x.Args[0]).(*ast.Ident); ok {
-					for _, p := range st.calls {
-						if p == id.Name {
-							return boolVal("true")
-						}
+					want = id.Name
+				} else if bl, ok := unparen(x.Args[0]).(*ast.BasicLit); ok && bl.Kind == token.STRING {
+					// called("send:ch") / called("recv:ch"): channel operations (see chanOp)
+					want, _ = strconv.Unquote(bl.Value)
+				}
+				for _, p := range st.calls {
+					if want != "" && p == want {
+						return boolVal("true")
 					}
 				}
 				return boolVal("false")
